@@ -4,3 +4,5 @@ cd /verif
 tier=${1:-quick}
 ids=$(.venv/bin/python -c "import json;print(' '.join(c['property_id'] for c in json.load(open('MANIFEST.json'))['checks']))")
 printf '%s\n' $ids | xargs -P ${2:-2} -I{} bash -c './check {} --tier '$tier' 2>&1 | grep -E "^(C[0-9]+ (OK|NOT-OK)|VIOLATION|UNDECIDED|FAULT)" | cut -c1-260'
+# every evidence file just rewritten must validate and carry the level MANIFEST.json claims
+.venv/bin/python tools/check_evidence.py $tier
